@@ -54,6 +54,72 @@ def thread_sweep(ck):
     ck.cov["thread_counts"] = counts
 
 
+def analyzer_thread_sweep(ck):
+    """Whole analyses (default backend selection) under different worker-thread counts: bit-identical statistics in every bin,
+    including the bins averaged over fewer segments than there are threads."""
+    import numba
+    from speckit.analysis import SpectrumAnalyzer
+    ncpu = numba.config.NUMBA_NUM_THREADS
+    counts = sorted(set([1, 2, 3, ncpu]))
+    runs = 0
+    try:
+        for it in range(2 if ck.tier == "quick" else 10):
+            N = ck.rng.choice([3000, 6000])
+            g = np.random.default_rng(ck.rng.randint(0, 2 ** 31))
+            x = g.standard_normal(N) + 0.5; y = 0.3 * x + g.standard_normal(N)
+            for cross in (False, True):
+                kw = dict(Jdes=20, Kdes=6, order=ck.rng.choice([0, 1]), win="hann", olap=0.5)       # backend left to the library ('auto')
+                ref = None
+                for t in counts:
+                    numba.set_num_threads(t)
+                    with np.errstate(all="ignore"):
+                        r = SpectrumAnalyzer(np.vstack([x, y]) if cross else x, 10.0, **kw).compute(); runs += 1
+                    v = {k: np.array(r._data[k], copy=True) for k in ("XX", "YY", "XY", "M2")}
+                    if ref is None:
+                        ref = v
+                    else:
+                        badk = [k for k in v if not np.array_equal(v[k], ref[k], equal_nan=True)]
+                        if badk:
+                            jb = int(np.nonzero(v[badk[0]] != ref[badk[0]])[0][0])
+                            ck.violation("the same analysis gives different %s with %d worker threads than with %d (bin %d, K=%d: %r vs %r)" %
+                                         (badk, t, counts[0], jb, int(r._data["K"][jb]), v[badk[0]][jb], ref[badk[0]][jb]),
+                                         dict(N=N, cross=cross, kw=kw, threads=t), tag="threads-analyzer")
+                            break
+    finally:
+        numba.set_num_threads(ncpu)
+    ck.cov["analyzer_thread_runs"] = runs
+
+
+def forced_plan_history(ck):
+    """force_target_nf: repeated plan() / compute() / single-bin calls on one analyzer keep the plan (same object values, same bin count)."""
+    from speckit.analysis import SpectrumAnalyzer
+    for cross in (False, True):
+        g = np.random.default_rng(ck.rng.randint(0, 2 ** 31))
+        N = 4000
+        x = g.standard_normal(N); y = 0.5 * x + g.standard_normal(N)
+        target = ck.rng.choice([40, 60, 100])
+        kw = dict(Jdes=target, Kdes=10, order=0, win="hann", olap=0.5, scheduler="ltf", force_target_nf=True)
+        mk = lambda: SpectrumAnalyzer((np.vstack([x, y]) if cross else x).copy(), 2.0, **kw)
+        try:
+            an = mk(); p0 = an.plan(); f0 = np.array(p0["f"], copy=True)
+        except Exception:
+            continue       # target not reachable for this record: C04's business
+        ops = []
+        for what, fn in (("plan()", lambda a: a.plan()["f"]), ("compute()", lambda a: a.compute()._data["f"]), ("plan()", lambda a: a.plan()["f"]),
+                         ("compute_single_bin", lambda a: a.compute_single_bin(0.3, L=200)._data["XX"]), ("compute()", lambda a: a.compute()._data["XX"]), ("plan()", lambda a: a.plan()["f"])):
+            ops.append(what)
+            try:
+                got = np.asarray(fn(an))
+            except Exception as e:
+                ck.violation("force_target_nf=%d: %s after %s raises %s" % (target, what, ops[:-1], type(e).__name__), dict(cross=cross, kw=kw, ops=ops), tag="history-forced"); break
+            fresh = mk()
+            want = np.asarray(fn(fresh))
+            if got.shape != want.shape or not np.array_equal(got, want, equal_nan=True):
+                ck.violation("force_target_nf=%d: %s after history %s differs from a fresh analyzer (%d vs %d bins)" % (target, what, ops[:-1], len(got), len(want)), dict(cross=cross, kw=kw, ops=ops), tag="history-forced"); break
+            if len(an.plan()["f"]) != len(f0):
+                ck.violation("force_target_nf=%d: the plan has %d bins after %s, it had %d" % (target, len(an.plan()["f"]), ops, len(f0)), dict(cross=cross, kw=kw, ops=ops), tag="history-forced"); break
+
+
 def history(ck):
     """Interleaved plan / compute / single-bin calls on one analyzer vs fresh analyzers."""
     from speckit.analysis import SpectrumAnalyzer
@@ -171,6 +237,8 @@ def run(ck):
         ck.obligation("effects:%s writes only slot j of xx,yy,xyr,xyi; no carried scalar; no read of written arrays" % k, ok, str(v))
     ck.build_theorems("Properties/C14.v", deps=["Hist.vo", "gen/KernelsGen.vo", "GenRef.vo"])
     thread_sweep(ck)
+    analyzer_thread_sweep(ck)
+    forced_plan_history(ck)
     history(ck)
     access_orders(ck)
     ck.cov["rule"] = "T1 effect summaries of the 12 parallel kernels; thread-count x chunk-size sweep (bit-exact); random plan/compute/single-bin histories vs fresh analyzers; random attribute access permutations vs fresh results"
